@@ -1,10 +1,11 @@
 #!/bin/bash
-# usage: mut.sh <patch.diff> <ID> [tier]   — apply a patch to /repo, run the check, revert.
+# usage: mut.sh <patch.diff> <ID> [tier]   — apply a patch to the repo under test, run the check, revert.
 set -u
-P=$1; ID=$2; T=${3:-quick}
-cd /repo && git diff --quiet || { echo "repo dirty"; exit 3; }
+P=$(readlink -f "$1"); ID=$2; T=${3:-quick}
+REPO=${VERIF_REPO:-/repo}; ROOT=${VERIF_ROOT:-/verif}
+cd $REPO && git diff --quiet || { echo "repo dirty"; exit 3; }
 git apply "$P" || { echo "patch does not apply"; exit 3; }
-/verif/check $ID $T; rc=$?
-git -C /repo checkout -- . 
+$ROOT/check $ID $T; rc=$?
+git -C $REPO checkout -- .
 echo "mut rc=$rc"
 exit $rc
